@@ -323,6 +323,28 @@ EvalK15(P, e, env, st) ==
     IN  IF ~Ok(r.st) THEN R(U, r.st)
         ELSE LET v == Read(r.st, r.ref) IN IF IsU(v) THEN RU(r.st) ELSE R(v, r.st)
 
+(* die Größe von <Typ>: the size in bytes of the published value representation (lib/runtime/include/DDP/ddptypes.h, C ABI of x86-64):
+   Zahl / Kommazahl 8, Byte / Wahrheitswert 1, Buchstabe 4, Text 16 (pointer, capacity), every list 24 (pointer, length, capacity), Variable 24
+   (vtable pointer, 16 byte buffer); a Kombination is a C struct of its fields in order of declaration: every field at the next multiple of
+   its alignment, the whole rounded up to the largest alignment.  A type definition has the representation of its underlying type.            *)
+RECURSIVE SizeAlign(_, _), LayoutFields(_, _, _, _, _)
+RoundUp(n, a) == ((n + a - 1) \div a) * a
+LayoutFields(P, fs, i, off, mx) ==
+    IF i > Len(fs) THEN [size |-> RoundUp(off, mx), align |-> mx]
+    ELSE LET sa == SizeAlign(P, fs[i].t)
+             at == RoundUp(off, sa.align)
+         IN  LayoutFields(P, fs, i + 1, at + sa.size, IF sa.align > mx THEN sa.align ELSE mx)
+SizeAlign(P, t) ==
+    CASE BaseOf(t) \in {"Z", "K"} -> [size |-> 8, align |-> 8]
+      [] BaseOf(t) \in {"B", "W"} -> [size |-> 1, align |-> 1]
+      [] BaseOf(t) = "C" -> [size |-> 4, align |-> 4]
+      [] BaseOf(t) = "T" -> [size |-> 16, align |-> 8]
+      [] BaseOf(t) = "V" -> [size |-> 24, align |-> 8]
+      [] IsListT(t) -> [size |-> 24, align |-> 8]
+      [] IsDefT(t) -> SizeAlign(P, t.of)
+      [] IsStructT(t) -> LayoutFields(P, StructDecl(P, t.s).fields, 1, 0, 1)
+      [] OTHER -> [size |-> 0, align |-> 1]
+
 \* a list of n copies of v (n evaluated first); more than 64 elements are outside the model
 EvalFill(P, e, env, st) ==
     LET q == EvalSeq(P, <<e.n, e.v>>, 1, env, st)
@@ -348,6 +370,7 @@ Eval(P, e, env, st) ==
       [] e.k = "lvr" -> EvalK15(P, e, env, st)
       [] e.k = "wenn" -> Eval(P, IF e.val THEN e.c ELSE [k |-> "un", op |-> "not", r |-> e.c], env, st)      \* wahr, wenn c  ==  c ;  falsch, wenn c  ==  nicht c
       [] e.k = "chain" -> Eval(P, Tree(e.items), env, st)      \* an unparenthesised operator chain means its precedence tree
+      [] e.k = "size" -> R(ZI(SizeAlign(P, e.t).size), st)      \* die Größe von <Typ>
       [] e.k = "fillx" -> EvalFill(P, e, env, st)              \* <n> Mal <v> as an expression (trees exported from the real parser)
       [] e.k = "unsup" -> RU(st)                               \* a construct the exporter of real trees does not translate: no meaning given
 
